@@ -4,12 +4,20 @@ use crate::report::{Acc, Ctx, Report};
 use serde_json::Value as J;
 
 #[cfg(feature = "full")]
+pub mod c07;
+#[cfg(feature = "full")]
 pub mod c15;
+#[cfg(feature = "full")]
+pub mod c20;
 
 pub fn run(ctx: &Ctx) -> Option<Report> {
     match ctx.prop.as_str() {
         #[cfg(feature = "full")]
+        "C07" => Some(c07::run(ctx)),
+        #[cfg(feature = "full")]
         "C15" => Some(c15::run(ctx)),
+        #[cfg(feature = "full")]
+        "C20" => Some(c20::run(ctx)),
         _ => None,
     }
 }
@@ -21,7 +29,11 @@ pub fn replay(ctx: &Ctx, j: &J, path: &str) -> i32 {
     let mut acc = Acc::new();
     match ctx.prop.as_str() {
         #[cfg(feature = "full")]
+        "C07" => c07::replay(sub, case, &mut acc),
+        #[cfg(feature = "full")]
         "C15" => c15::replay(sub, case, &mut acc),
+        #[cfg(feature = "full")]
+        "C20" => c20::replay(sub, case, &mut acc),
         other => {
             eprintln!("MACHINERY: no replay for property {:?} in this build", other);
             return 2;
